@@ -227,7 +227,7 @@ def one_history(col: Collector, rng, index: int):
                     continue
                 j = rng.choice(open_jobs)
                 ds = rng.choice(ds_pool)
-                data = rng.randbytes(rng.choice([0, 1, 16, 300]))
+                data = rng.randbytes(rng.choice([0, 1, 16, 300, 300, 70000, (1 << 20) - 1, 1 << 20, (1 << 20) + 1, 3 * (1 << 20) + 7]) if rng.random() < 0.03 else rng.choice([0, 1, 16, 300]))   # large results now and then: nothing in the statement bounds their size
                 if any(ds in model_res[o] for o in jobs if o != j):
                     cross += 1
                 with_status = rng.random() < 0.2
